@@ -324,6 +324,11 @@ func corpusBinary() [][]byte {
 		h("42007801000000080000000200000000"),                   // struct with tag-0 child
 		h("42007807FFFFFFFF"),                                   // huge length
 		h("42007807FFFFFFF9"),                                   // length whose padding overflows 32 bits
+		// over-long big integers (C18): 16 bytes for the value 1; 24 bytes for -2; nested: over-long 128, then a
+		// 5-byte negative one followed by non-zero padding
+		h("4200780400000010 0000000000000000 0000000000000001"),
+		h("4200780400000018 FFFFFFFFFFFFFFFF FFFFFFFFFFFFFFFF FFFFFFFFFFFFFFFE"),
+		h("4200780100000028 42000B0400000010 0000000000000000 0000000000000080 42000B0400000005 FF7F000000 AABBCC"),
 	}
 }
 
